@@ -40,6 +40,8 @@ ModeOf(e) == IF "m" \in DOMAIN e THEN e.m ELSE cfg.mode
 IsOneOverX(e) == /\ "lhsprim" \in DOMAIN e /\ "l" \in DOMAIN e.a
                  /\ e.a.l = <<1>> /\ e.a.s = 1 /\ e.a.e = 0
 
+FArg(v) == IF "bits" \in DOMAIN v THEN Norm(FloatValue(ZOf(v.bits).m, v.w)) ELSE Arg(v)
+
 Verdict(e) ==
   LET op == e.op IN
   CASE op = "add" -> AddOK(Arg(e.a), Arg(e.b), e.r)
@@ -82,6 +84,7 @@ Verdict(e) ==
     [] op = "maxmin" -> MaxMinOK(e.form, WArg(e.a), WArg(e.b), e.r)
     [] op = "sort" -> SortOK([i \in 1..Len(e.xs) |-> WArg(e.xs[i])], e.r)
     [] op = "hash" -> HashOK(hist.hash, WArg(e.a), e.r)
+    [] op = "eq_hash" -> EqHashOK(WArg(e.a), WArg(e.b), e.r)
     [] op = "hashset" -> HashSetOK([i \in 1..Len(e.xs) |-> WArg(e.xs[i])], e.r)
     [] op = "parse" -> ParseOK(IF "text" \in DOMAIN e THEN e.text ELSE e.bytes,
                                IF "radix" \in DOMAIN e THEN e.radix ELSE 10,
@@ -107,13 +110,14 @@ Verdict(e) ==
     [] op = "cbrt" -> CbrtOK(Arg(e.a), PrecOf(e), ModeOf(e), e.r)
     [] op = "inverse" -> LET v == InverseOK(Arg(e.a), PrecOf(e), ModeOf(e), e.r)
                          IN IF v = OK THEN InvAgreeOK(hist.inv, Arg(e.a), PrecOf(e), ModeOf(e), e.r) ELSE v
-    [] op = "div" /\ "bits" \in DOMAIN e.a ->          \* float numerator: only the zero-divisor rule is specified here
-         IF Arg(e.b).d = <<>> THEN Chk(IsPanic(e.r), "zero-divisor-must-panic") ELSE OK
-    [] op = "div" /\ IsOneOverX(e) ->                  \* `1 / x` with a primitive one is the reciprocal (C12)
-         IF Arg(e.b).d = <<>> THEN Chk(IsPanic(e.r), "zero-divisor-must-panic")
-         ELSE InverseOK(Arg(e.b), cfg.precision, cfg.mode, e.r)
-    [] op = "div" -> LET v == DivOK(Arg(e.a), Arg(e.b), cfg.precision, e.r)
-                     IN IF v = OK THEN DivAgreeOK(hist.div, Arg(e.a), Arg(e.b), e.r) ELSE v
+    [] op = "div" ->
+         \* operands may be binary floats (normal ones): they stand for the exact decimal they hold
+         LET A == FArg(e.a)  B == FArg(e.b) IN
+         IF B.d = <<>> THEN Chk(IsPanic(e.r), "zero-divisor-must-panic")
+         ELSE IF IsOneOverX(e) \/ ("bits" \in DOMAIN e.a /\ A = DOne)      \* `1 / x` with a primitive one is the reciprocal (C12)
+         THEN InverseOK(B, cfg.precision, cfg.mode, e.r)
+         ELSE LET v == DivOK(A, B, cfg.precision, e.r)
+              IN IF v = OK THEN DivAgreeOK(hist.div, A, B, e.r) ELSE v
     [] op = "rem" -> RemOK(Arg(e.a), Arg(e.b), e.r)
     [] OTHER -> Bad("unknown-op")
 
@@ -121,7 +125,7 @@ Verdict(e) ==
 Explained(e, v) ==
   IF e.op = "inverse" /\ KF_C12_SmallPrecision("inverse", Arg(e.a), PrecOf(e), e.r, v[2])
     THEN <<"dev", "KF-C12-small-precision">>
-  ELSE IF e.op = "div" /\ IsOneOverX(e) /\ Arg(e.b).d # <<>> /\ KF_C12_SmallPrecision("div", Arg(e.b), cfg.precision, e.r, v[2])
+  ELSE IF e.op = "div" /\ (IsOneOverX(e) \/ ("bits" \in DOMAIN e.a /\ FArg(e.a) = DOne)) /\ FArg(e.b).d # <<>> /\ KF_C12_SmallPrecision("div", FArg(e.b), cfg.precision, e.r, v[2])
     THEN <<"dev", "KF-C12-small-precision">>
   ELSE IF e.op = "de_json" /\ KF_C17_ValueThroughFloat(e.form, e.doc, e.r)
     THEN <<"dev", "KF-C17-value-through-f64">>
@@ -147,7 +151,7 @@ Step ==
           /\ bad' = IF v = OK THEN bad ELSE Append(bad, <<l, v>>)
           /\ hist' = IF e.op = "hash" THEN [hist EXCEPT !.hash = HashRemember(hist.hash, WArg(e.a), e.r)]
                       ELSE IF e.op = "inverse" THEN [hist EXCEPT !.inv = InvRemember(hist.inv, Arg(e.a), PrecOf(e), ModeOf(e), e.r)]
-                      ELSE IF e.op = "div" /\ "bits" \notin DOMAIN e.a THEN [hist EXCEPT !.div = DivRemember(hist.div, Arg(e.a), Arg(e.b), e.r)]
+                      ELSE IF e.op = "div" THEN [hist EXCEPT !.div = DivRemember(hist.div, FArg(e.a), FArg(e.b), e.r)]
                       ELSE hist
           \* the register takes the decimal the implementation produced (resynchronisation)
           /\ regs' = IF "dst" \in DOMAIN e /\ IsD(e.r) /\ "e" \in DOMAIN e.r.d THEN [regs EXCEPT ![e.dst] = DecOf(e.r.d)] ELSE regs
